@@ -23,6 +23,46 @@ pub struct ManyPeers {
     pub tcp: bool,
     /// how the peers are accepted: 0 indications, 1 requests, 2 responses to unsealed requests
     pub how: u8,
+    /// when set, all `n` messages come from ONE peer (and every eighth is a message that must be
+    /// dropped): however much traffic a validated peer sends, it stays validated
+    #[serde(default)]
+    pub one_peer: bool,
+}
+
+fn one_peer(c: &ManyPeers, st: &mut Stats) -> TestResult {
+    st.eval();
+    let transport = if c.tcp { TransportType::Tcp } else { TransportType::Udp };
+    let mut agent = StunAgent::builder(transport, agentsim::local_addr()).build();
+    let from = nth_peer(7, c.v6);
+    let other = nth_peer(8, c.v6);
+    for i in 0..c.n {
+        let tid = 0x4000_0000_0000_0000_0000u128 + i as u128;
+        let dropped = i % 8 == 5;
+        let bytes = if dropped {
+            // a response for a transaction nobody started
+            agentsim::response_bytes(tid, false, agentsim::Auth::Unsigned, false, 0)
+        } else {
+            let mut b = refstun::header(refstun::type_encode(if c.how % 2 == 0 { 1 } else { 0 }, 1), 0, tid);
+            refstun::push_tlv(&mut b, 0x8022, b"peer", 0);
+            refstun::set_len(&mut b);
+            b
+        };
+        let msg = Message::from_bytes(&bytes).map_err(|e| Fail::new("harness", format!("{:?}", e)))?;
+        let was_drop = guard(|| matches!(agent.handle_stun(msg, from), HandleStunReply::Drop)).map_err(|p| Fail::new("c15-panic", p))?;
+        ensure!(was_drop == dropped, "c15-lost", "message #{} from {} was {}", i, from, if was_drop { "dropped" } else { "accepted although it answers no request" });
+        ensure!(
+            agent.is_validated_peer(from),
+            "c15-lost",
+            "after {} messages from {} ({} of them accepted) is_validated_peer says false: a validated peer stays validated",
+            i + 1,
+            from,
+            i + 1 - (i + 3) / 8
+        );
+        ensure!(!agent.is_validated_peer(other), "c15-spurious", "{} is validated after {} messages from {} only", other, i + 1, from);
+    }
+    st.class("many messages from one peer");
+    st.nontrivial(digest(&(c.n, c.v6, c.tcp, c.how, true)));
+    Ok(())
 }
 
 fn nth_peer(i: u32, v6: bool) -> SocketAddr {
@@ -34,6 +74,9 @@ fn nth_peer(i: u32, v6: bool) -> SocketAddr {
 }
 
 fn many_peers(c: &ManyPeers, st: &mut Stats) -> TestResult {
+    if c.one_peer {
+        return one_peer(c, st);
+    }
     st.eval();
     let transport = if c.tcp { TransportType::Tcp } else { TransportType::Udp };
     let mut agent = StunAgent::builder(transport, agentsim::local_addr()).build();
@@ -122,8 +165,11 @@ pub fn run(ctx: &Ctx) -> EvidenceMeta {
             if how == 2 && n > 5_000 {
                 continue;
             }
-            many.push(ManyPeers { n, v6, tcp, how });
+            many.push(ManyPeers { n, v6, tcp, how, one_peer: false });
         }
+    }
+    for (n, v6, tcp, how) in [(70_000u32, false, false, 0u8), (66_000, true, true, 1)] {
+        many.push(ManyPeers { n: if ctx.quick() { n } else { n * 4 }, v6, tcp, how, one_peer: true });
     }
     ctx.enumerate("many-peers", &many, many_peers);
     EvidenceMeta {
